@@ -397,3 +397,85 @@ Proof.
   apply (ab_stuck_by_compute 0 (fun _ => true) (fun t => if Nat.eqb t 1 then 1 else 0) _ 2); [lia| |vm_compute; reflexivity|vm_compute; reflexivity].
   intros t Ht. replace (Nat.eqb t 1) with false by (symmetry; apply Nat.eqb_neq; lia). reflexivity.
 Qed.
+
+(* ------------------------------------------------------------------ plain OS threads: every wait ends with the exception, exactly once *)
+(* waits of t whose suspension has not ended yet *)
+Definition remaining (l : ab_local) : nat :=
+  match apc l with QDone => 0 | QRelock | QCheck => todo l | _ => S (todo l) end.
+
+(* OS threads never return spuriously and never hold a token: each suspension blocks and is ended by an abort(), whose reason
+   (default_agent::aborted_) is there when the suspension ends *)
+Definition OSI (a : nat) (isos : nat -> bool) (waits : nat -> nat) (g : ab_shared) (ls : locals ab_local) : Prop :=
+  forall t, t <> a -> isos t = true ->
+    is_q (apc (ls t)) = true /\ tok (aag g t) = false /\
+    (apc (ls t) = QSusp -> blocked (aag g t) = false -> areason g t = true) /\
+    thrown g t + remaining (ls t) = waits t.
+
+Lemma ab_step_osi : forall a isos waits spur t g (ls : locals ab_local), OSI a isos waits g ls ->
+  OSI a isos waits (fst (ab_tstep a isos spur t g (ls t))) (upd ls t (snd (ab_tstep a isos spur t g (ls t)))).
+Proof.
+  intros a isos waits spur t g ls I x Nx Ox. destruct (I x Nx Ox) as (R & T & S & C).
+  unfold ab_tstep. destruct (Nat.eqb t a) eqn:Eta.
+  - apply Nat.eqb_eq in Eta. subst t. rewrite upd_o by exact Nx.
+    destruct (apc (ls a)) eqn:P; cbn [fst snd aag areason thrown]; try (repeat split; assumption).
+    + destruct (ai g); cbn [fst aag areason thrown set_i]; repeat split; assumption.
+    + destruct (aq g); cbn [fst aag areason thrown set_i]; repeat split; assumption.
+    + destruct (apend g); cbn [fst aag areason thrown]; repeat split; assumption.
+    + destruct (isos w && negb (blocked (aag g w))) eqn:E; cbn [fst aag areason thrown]; [repeat split; assumption|].
+      destruct (Nat.eq_dec x w) as [->|N].
+      * rewrite !upd_s, Ox. cbn. repeat split; try assumption; reflexivity.
+      * rewrite !upd_o by exact N. repeat split; assumption.
+    + destruct (ai g); cbn [fst aag areason thrown set_i]; repeat split; assumption.
+  - apply Nat.eqb_neq in Eta. destruct (Nat.eq_dec x t) as [->|N].
+    + rewrite upd_s. destruct (apc (ls t)) eqn:P; try discriminate R; cbn [fst snd apc lpc aag areason thrown todo].
+      * destruct (ai g); cbn [fst snd apc lpc aag areason thrown set_i todo remaining]; rewrite ?P;
+          (split; [reflexivity|split; [exact T|split; [discriminate|]]]); unfold remaining in *; cbn [apc todo lpc] in *; rewrite ?P in *; exact C.
+      * split; [reflexivity|split; [exact T|split; [discriminate|]]]. unfold remaining in *. cbn [apc todo lpc] in *. rewrite ?P in *. exact C.
+      * rewrite upd_s. unfold a_suspend. rewrite T. cbn [fst tok blocked]. split; [reflexivity|split; [reflexivity|split; [discriminate|]]].
+        unfold remaining in *. cbn [apc todo lpc] in *. rewrite ?P in *. exact C.
+      * rewrite Ox. cbn [negb andb]. rewrite andb_false_r, andb_true_r.
+        destruct (blocked (aag g t)) eqn:B; cbn [fst snd apc aag areason thrown todo].
+        -- rewrite P. split; [reflexivity|split; [exact T|split; [intros _ B2; congruence|]]]. unfold remaining in *. rewrite P in *. exact C.
+        -- rewrite upd_s. cbn [tok blocked]. rewrite (S eq_refl eq_refl). rewrite upd_s.
+           split; [reflexivity|split; [exact T|split; [discriminate|]]]. unfold remaining in *. cbn [apc todo] in *. rewrite ?P in *. lia.
+      * destruct (ai g); cbn [fst snd apc lpc aag areason thrown set_i todo remaining]; rewrite ?P;
+          (split; [reflexivity|split; [exact T|split; [discriminate|]]]); unfold remaining in *; cbn [apc todo lpc] in *; rewrite ?P in *; exact C.
+      * assert (Th : forall g1, aag g1 = aag g -> areason g1 = areason g -> thrown g1 = thrown g ->
+                  is_q (apc (match todo (ls t) with O => {| apc := QDone; todo := O; thr := thr (ls t) |} | S k => {| apc := QLockI; todo := k; thr := thr (ls t) |} end)) = true /\
+                  tok (aag g1 t) = false /\
+                  (apc (match todo (ls t) with O => {| apc := QDone; todo := O; thr := thr (ls t) |} | S k => {| apc := QLockI; todo := k; thr := thr (ls t) |} end) = QSusp ->
+                   blocked (aag g1 t) = false -> areason g1 t = true) /\
+                  thrown g1 t + remaining (match todo (ls t) with O => {| apc := QDone; todo := O; thr := thr (ls t) |} | S k => {| apc := QLockI; todo := k; thr := thr (ls t) |} end) = waits t).
+        { intros g1 E1 E2 E3. rewrite E1, E3. unfold remaining in *. rewrite P in C.
+          destruct (todo (ls t)); cbn [apc todo is_q]; (split; [reflexivity|split; [exact T|split; [discriminate|exact C]]]). }
+        destruct (mem t (aq g)); [|destruct (mem t (apend g))]; cbn [fst snd]; apply Th; reflexivity.
+      * rewrite P. split; [reflexivity|split; [exact T|split; [discriminate|]]]. unfold remaining in *. rewrite P in *. exact C.
+    + rewrite upd_o by exact N.
+      destruct (apc (ls t)) eqn:P; cbn [fst snd aag areason thrown]; try (repeat split; assumption).
+      * destruct (ai g); cbn [fst aag areason thrown set_i]; repeat split; assumption.
+      * rewrite upd_o by exact N. repeat split; assumption.
+      * destruct (blocked (aag g t) && negb (spur && negb (isos t))); cbn [fst aag areason thrown]; [repeat split; assumption|].
+        rewrite upd_o by exact N. destruct (isos t); destruct (areason g t); rewrite ?upd_o by exact N; repeat split; assumption.
+      * destruct (ai g); cbn [fst aag areason thrown set_i]; repeat split; assumption.
+      * destruct (mem t (aq g)); [|destruct (mem t (apend g))]; cbn [fst aag areason thrown set_i]; repeat split; assumption.
+Qed.
+
+Lemma ab_osi : forall a isos waits sched,
+  OSI a isos waits (fst (ab_run a isos waits sched)) (snd (ab_run a isos waits sched)).
+Proof.
+  intros a isos waits sched. unfold ab_run.
+  apply (run_inv ab_shared ab_local bool (ab_tstep a isos) (OSI a isos waits)).
+  - intros o t g ls. apply ab_step_osi.
+  - cbn [fst snd]. intros t N _. unfold ab_locals. apply Nat.eqb_neq in N. rewrite N.
+    destruct (waits t); cbn; repeat split; try reflexivity; discriminate.
+Qed.
+
+(* a plain OS thread that has finished its waits saw the exception in every one of them, once per wait; in general the
+   exceptions seen so far plus the suspensions still ahead add up to the waits of the thread *)
+Lemma os_waiter_throws_every_wait : forall a isos waits sched t, t <> a -> isos t = true ->
+  let cf := ab_run a isos waits sched in
+  thrown (fst cf) t + remaining (snd cf t) = waits t /\ (apc (snd cf t) = QDone -> thrown (fst cf) t = waits t).
+Proof.
+  intros a isos waits sched t N O cf. destruct (ab_osi a isos waits sched t N O) as (_ & _ & _ & C). fold cf in C.
+  split; [exact C|]. intros D. unfold remaining in C. rewrite D in C. lia.
+Qed.
